@@ -168,3 +168,44 @@ Theorem C09_gen_alloc_async_refuted :
   4 * 2130706432 <= snd (alloc_decode_top MAsync false modes_schema PBinary (TyRef 0) [x08; x7f; x00; x00; x00]%byte).
 Proof. exact gen_alloc_async_refuted. Qed.
 Print Assumptions C09_gen_alloc_async_refuted.
+
+(* ---------- the keep_unknown_fields decoder with the retained slice as Rust takes it (GenKeepG.v) ----------
+   get_bytes(Some(begin_ptr), offset) = copy_from_slice(from_raw_parts(ptr, len)) is PARTIAL: an offset beyond the input is an
+   out-of-bounds read (Panic SOob in gen_decode_keep_g; GenKeep.gen_decode_keep totalises it with firstn). *)
+From PVGen Require Import GenKeep GenKeepG Proofs.KeepTotalP.
+
+(* binary protocols (the ones retention is documented for), outside the F-13a class (no_arg_keeps = KeepSpec.no_keep_arg: no keeping struct
+   is an `args` type): on EVERY byte string, reader context and fuel above the input length the keep decoder returns a value or a
+   genuine error -- never a panic (no out-of-bounds slice, no usize underflow), never fuel exhaustion *)
+Theorem C09_gen_keep_total : forall S p t (l : list byte) rcx fuel,
+  p <> PCompact -> no_arg_keeps S = true -> (length l < fuel)%nat ->
+  let o := gen_decode_keep_g S p fuel t (mkS l rcx) in
+  (forall st, o <> Panic st) /\ o <> Err EOutOfFuel.
+Proof. exact gen_decode_keep_total. Qed.
+Print Assumptions C09_gen_keep_total.
+
+(* there the offset is exactly the number of bytes consumed: the partial decoder IS the totalised one -- every schema (also
+   with `args` types), fuel, type, state -- so what is proved of GenKeep.gen_decode_keep (C09_gen_alloc_keep, C13_*, C19_*_keep,
+   C11_gen_read_eq) is, in the binary protocols, proved of the decoder with the honest slice *)
+Theorem C09_gen_keep_partial_is_total_binary : forall S p, p <> PCompact ->
+  forall fuel t s, gen_decode_keep_g S p fuel t s = gen_decode_keep S p fuel t s.
+Proof. exact keep_g_agrees. Qed.
+Print Assumptions C09_gen_keep_partial_is_total_binary.
+
+(* compact: the reader's field_begin_len counts the long form of a field header that came in the short form, and on a message
+   that ends right after an unknown field the slice reaches past the input: finding F-13b (FINDINGS.md; retention is
+   documented for the binary codecs only).  The totalised model returns an error there; statements about gen_decode_keep under
+   PCompact are statements about the totalised function *)
+Theorem C09_gen_keep_compact_oob_refuted :
+  let S := [DStruct [] true false] in
+  gen_decode_keep_g S PCompact 40 (TyRef 0) (mkS [x25; x02] r0) = Panic SOob /\
+  (exists e, gen_decode_keep S PCompact 40 (TyRef 0) (mkS [x25; x02] r0) = Err e) /\
+  (forall p fuel s, p <> PCompact -> gen_decode_keep_g S p fuel (TyRef 0) s = gen_decode_keep S p fuel (TyRef 0) s).
+Proof. exact keep_compact_oob_refuted. Qed.
+Print Assumptions C09_gen_keep_compact_oob_refuted.
+
+(* the F-13a class is needed *)
+Theorem C09_gen_keep_arg_refuted :
+  gen_decode_keep_g [DStruct [] true true] PBinary 40 (TyRef 0) (mkS [x00] r0) = Panic SOverflow.
+Proof. exact keep_arg_panics. Qed.
+Print Assumptions C09_gen_keep_arg_refuted.
